@@ -191,7 +191,8 @@ class Contract:
 
             det_terms = []
             for k in sorted(vals):
-                det_terms.extend(encode_arg(st, vals[k]))
+                if k != "old":
+                    det_terms.extend(encode_arg(st, vals[k]))
             if self_obj is not None:
                 for _k, v in sorted(self_obj.fields.items()):
                     try:
